@@ -1253,7 +1253,7 @@ def rule_none_is_error(ctx: Ctx, rid="C06.NONE-IS-ERROR"):
                 assigns_it = isinstance(ev, ast.Assign) and any(isinstance(t, ast.Name) and t.id == nm for t in ev.targets)
                 if uses and not assigns_it and not tested and not isinstance(ev, ast.Raise):
                     bad = ev
-        if p.facts.get(nm) == "none":
+        if p.facts.get(nm) in ("none", "falsy"):
             n += 1
             if p.exit != "raise":
                 bad = bad or p.exit_node or rec
@@ -1608,6 +1608,13 @@ def rule_stats(ctx: Ctx):
         env = {**sym, "n": n, "p": p, "confidence": conf}
         zsym = None
         for st in pth.stmts():
+            if isinstance(st, ast.Assign) and len(st.targets) == 1 and isinstance(st.targets[0], ast.Tuple) \
+                    and isinstance(st.value, ast.Tuple) and len(st.value.elts) == len(st.targets[0].elts):
+                vals = [to_sym(v, env) for v in st.value.elts]
+                for t_, v_ in zip(st.targets[0].elts, vals):
+                    if isinstance(t_, ast.Name):
+                        env[t_.id] = v_
+                continue
             if isinstance(st, ast.Assign) and len(st.targets) == 1 and isinstance(st.targets[0], ast.Name):
                 nm = st.targets[0].id
                 if isinstance(st.value, ast.Call) and dotted(st.value.func) == "probit":
